@@ -9,7 +9,9 @@ Line-protocol driver for the C12 model (observed / cached properties).
             cached  0|1          variant o (observe=) | l (depends_on=)
             static  0|1  class-level listener `_p_changed`
             ra rv   0|1  static reader on root.aux / root.value (runs before the property's observer)
-            rp      0|1  reader on root.value attached with the dynamic listeners (runs after)
+            rp      0|1  reader on root.value attached with the dynamic listeners (runs after the property's
+                         observer; the generator keeps histories in which root.value only becomes a
+                         dependency after `at` out of the comparison, see harness/props/c12.py rebuild())
             getter  V (serialised view) | S (lossy sum)      undef 0|1 (S returns Undefined when sum % 5 = 3)
             fail    - | k:Exc   (the k-th getter call on an object raises Exc)
   step  :=  sv o f x | si o t | sk o [ids] | mk o op [ids] e | sb o {k:id,…} | mb o op {…} e
@@ -72,30 +74,7 @@ def dict? (s : String) : Option (List (Int × Nat)) :=
       | [k, v] => do pure ((← int? k), (← (clean v).toNat?))
       | _ => none)
 
-/-! ### getters -/
-
-def showContent : Content → String
-  | .int v => toString v
-  | .ref none => "N"
-  | .ref (some i) => s!"#{i}"
-  | .ids l => "[" ++ ",".intercalate (l.map toString) ++ "]"
-  | .dict d => "{" ++ ",".intercalate (d.map (fun kv => s!"{kv.1}:{kv.2}")) ++ "}"
-  | .ints l => "<" ++ ",".intercalate (l.map toString) ++ ">"
-
-def viewGetter (E : Expr) (root : Id) (h : Heap) : String :=
-  "&".intercalate (foldExpr showContent (fun c l => showContent c ++ "(" ++ " ".intercalate l ++ ")") h E root)
-
-def sumLeaf : Content → Int
-  | .int v => v
-  | .ref none => 0
-  | .ref (some i) => Int.ofNat i + 1
-  | .ids l => (l.map (fun i => Int.ofNat i + 1)).foldl (· + ·) 0 + 100 * Int.ofNat l.length
-  | .dict d => (d.map (fun kv => kv.1 * 7 + Int.ofNat kv.2 + 1)).foldl (· + ·) 0
-  | .ints l => l.foldl (· + ·) 0 + 100 * Int.ofNat l.length
-
-def sumGetter (E : Expr) (root : Id) (undef : Bool) (h : Heap) : String :=
-  let t := (foldExpr sumLeaf (fun _ l => l.foldl (· + ·) 0) h E root).foldl (· + ·) 0
-  if undef && t % 5 == 3 then "U" else toString t
+/-! ### getters: `viewGetter` / `sumGetter` of the model file -/
 
 structure Shape where
   E : Expr
